@@ -280,6 +280,14 @@ func c19Entry(c *core.Ctx, efr *ssa.Function) {
 				if explicitPhi != nil && cd.V == ssa.Value(explicitPhi) && !cd.Pos {
 					t["notExplicit"] = true
 				}
+				// or the comma-ok of the per-host helper lookup itself is the flag
+				if ex, isEx := cd.V.(*ssa.Extract); isEx && ex.Index == 1 && !cd.Pos {
+					if lk, isLk := ex.Tuple.(*ssa.Lookup); isLk && lk.CommaOk {
+						if _, f2, isF2 := facts.FieldOf(facts.Resolve(lk.X)); isF2 && f2 == "CredHelpers" {
+							t["notExplicit"] = true
+						}
+					}
+				}
 				if call, isCall := cd.V.(*ssa.Call); isCall && cd.Pos && facts.CalleeName(&call.Call) == "errors.Is" {
 					if errV != nil && facts.Resolve(call.Call.Args[0]) == errV {
 						if u, ok := facts.Resolve(call.Call.Args[1]).(*ssa.UnOp); ok {
